@@ -15,6 +15,13 @@ GEN = convprop.MODEL_TABLES
 SCALAR_PY = {'bool': bool, 'int': int, 'float': float, 'complex': complex, 'str': str, 'bytes': bytes, 'bytearray': bytearray}
 
 
+def _r(x):
+    try:
+        return repr(x)
+    except Exception as e:
+        return f'<a {type(x).__name__} whose repr raises {type(e).__name__}: {e}>'
+
+
 def typed_ok(term, x, v=None):
     """is x the deep, exactly-typed image for the type term?  returns None or a description of the defect"""
     import pane
@@ -22,15 +29,15 @@ def typed_ok(term, x, v=None):
     if k == 'any':
         return None
     if k == 'none':
-        return None if x is None else f'{x!r} is not None'
+        return None if x is None else f'{_r(x)} is not None'
     if k == 'scalar':
-        return None if type(x) is SCALAR_PY[term[1]] else f'{x!r} has class {type(x).__name__}, expected {term[1]}'
+        return None if type(x) is SCALAR_PY[term[1]] else f'{_r(x)} has class {type(x).__name__}, expected {term[1]}'
     if k == 'std':
         return None
     if k == 'seq':
         want = {'list': list, 'tuple': tuple, 'set': set, 'frozenset': frozenset}[term[1]]
         if type(x) is not want:
-            return f'{x!r} has class {type(x).__name__}, expected {want.__name__}'
+            return f'{_r(x)} has class {type(x).__name__}, expected {want.__name__}'
         for e in x:
             r = typed_ok(term[2], e)
             if r:
@@ -38,7 +45,7 @@ def typed_ok(term, x, v=None):
         return None
     if k == 'tuple':
         if type(x) is not tuple or len(x) != len(term[1]):
-            return f'{x!r} is not a tuple of length {len(term[1])}'
+            return f'{_r(x)} is not a tuple of length {len(term[1])}'
         for t, e in zip(term[1], x):
             r = typed_ok(t, e)
             if r:
@@ -46,7 +53,7 @@ def typed_ok(term, x, v=None):
         return None
     if k == 'dict':
         if type(x) is not dict:
-            return f'{x!r} has class {type(x).__name__}, expected dict'
+            return f'{_r(x)} has class {type(x).__name__}, expected dict'
         for kk, vv in x.items():
             r = typed_ok(term[1], kk) or typed_ok(term[2], vv)
             if r:
@@ -54,7 +61,7 @@ def typed_ok(term, x, v=None):
         return None
     if k == 'struct':
         if type(x) is not dict or set(x) != {n for n, _ in term[1]}:
-            return f'{x!r} is not a dict with exactly the declared keys'
+            return f'{_r(x)} is not a dict with exactly the declared keys'
         for n, t in term[1]:
             r = typed_ok(t, x[n])
             if r:
@@ -62,22 +69,22 @@ def typed_ok(term, x, v=None):
         return None
     if k == 'union':
         rs = [typed_ok(m, x) for m in term[1]]
-        return None if any(r is None for r in rs) else f'{x!r} is not typed as any member: {rs[0]}'
+        return None if any(r is None for r in rs) else f'{_r(x)} is not typed as any member: {rs[0]}'
     if k == 'literal':
-        return None if any(x == l for l in term[1]) else f'{x!r} is not one of the literal values'
+        return None if any(x == l for l in term[1]) else f'{_r(x)} is not one of the literal values'
     if k == 'enum':
         if not isinstance(x, enum.Enum) or type(x).__name__ != term[1]:
-            return f'{x!r} is not a member of enum {term[1]}'
+            return f'{_r(x)} is not a member of enum {term[1]}'
         return None
     if k == 'cond':
         return typed_ok(term[1], x)
     if k == 'tagged':
         rs = [typed_ok(vt, x) for _, vt in term[3]]
-        return None if any(r is None for r in rs) else f'{x!r} is not an instance of a variant'
+        return None if any(r is None for r in rs) else f'{_r(x)} is not an instance of a variant'
     if k == 'class':
         cls = term[1].get('_cls')
         if type(x) is not cls:
-            return f'{x!r} is not an instance of {cls.__name__}'
+            return f'{_r(x)} is not an instance of {cls.__name__}'
         from pane.field import _MISSING
         spec, sp = {}, term[1]
         while sp is not None:
@@ -116,7 +123,7 @@ def monitor(c):
     if c.fd_obs[0] == 'ok':
         r = typed_ok(c.term, c.fd_obs[1])
         if r:
-            out.append((f'C01:{head}:not-exactly-typed', f'from_data({c.value!r}, {c.built.py!r}) = {c.fd_obs[1]!r}: {r}', None))
+            out.append((f'C01:{head}:not-exactly-typed', f'from_data({c.value!r}, {c.built.py!r}) = {_r(c.fd_obs[1])}: {r}', None))
     # verdict and value depend on nothing but T and v: re-evaluation, and an equivalent re-spelling of T
     with warnings.catch_warnings():
         warnings.simplefilter('ignore')
@@ -146,6 +153,8 @@ def monitor(c):
 
 
 def run(ctx, out):
+    import families as _famsm
+    out.evaluations += _famsm.struct_mapping_family(out, PROP)
     import families as _fam2
     out.evaluations += _fam2.scalar_subclass_family(out, PROP)
     import families as _fam
